@@ -1,11 +1,13 @@
 #!/bin/bash
-# Applies canaries/refactor-1.diff (meaning-preserving edits) to a scratch copy of /repo and runs every registered quick check
+# usage: tools/refactor_canary.sh [refactor-1|refactor-2]
+# Applies canaries/<name>.diff (meaning-preserving edits) to a scratch copy of /repo and runs every registered quick check
 # against it.  Expected: every check exits 0 and prints no VIOLATION line.
 set -u
 cd /verif
+NAME=${1:-refactor-1}
 D=$(mktemp -d /dev/shm/rc_XXXXXX)
 rsync -a --exclude .git /repo/ "$D/"
-( cd "$D" && patch -p1 -s < /verif/canaries/refactor-1.diff ) || { echo "PATCH-FAILED"; rm -rf "$D"; exit 9; }
+( cd "$D" && patch -p1 -s < /verif/canaries/$NAME.diff ) || { echo "PATCH-FAILED"; rm -rf "$D"; exit 9; }
 ids=$(python3 -c "import json; print(' '.join(c['property_id'] for c in json.load(open('MANIFEST.json'))['checks']))")
 echo $ids | tr ' ' '\n' | xargs -P 4 -I{} sh -c "VERIF_REPO=$D VERIF_OUT=$D/_out VERIF_PROCS=4 ./check {} --tier quick > $D/{}.log 2>&1; echo {} exit=\$? violations=\$(grep -c '^VIOLATION' $D/{}.log) \$(grep '^\[' $D/{}.log | cut -c1-150)"
 rm -rf "$D"
